@@ -9,7 +9,7 @@ fn tb(t: Time) -> u128 { t.nanos().to_bits() }
 fn db(d: Duration) -> i128 { d.nanos().to_bits() }
 
 // @harness c16_k_add_sub_roundtrip
-// @props C16
+// @props C16:quick
 // @tier quick
 // @timeout 600
 // @functions Add<Duration> for Time, Sub<Duration> for Time, Sub<Time> for Time, Neg for Duration, Duration::from_fixed_nanos
@@ -29,7 +29,7 @@ fn c16_k_add_sub_roundtrip() {
 }
 
 // @harness c16_k_wire_and_interval
-// @props C16
+// @props C16:quick
 // @tier quick
 // @timeout 600
 // @functions From<WireTimestamp> for Time, From<TimeInterval> for Duration, From<Duration> for TimeInterval
